@@ -2,7 +2,7 @@
    fills, the correspondence of Index.v with the observed index answers, and the property
    predicate: reported places = an independent scan of the implementation's own reader
    blocks for links resolving to the note. *)
-From IweV Require Export Str Text Ast RelPath Arena Project Library Index Harness Check_Lib.
+From IweV Require Export Str Text Ast RelPath Arena Project Library Index IndexFacts Harness Check_Lib.
 Local Open Scope string_scope.
 Local Open Scope list_scope.
 
@@ -108,7 +108,13 @@ Definition c05_corr (tbl : bool) (c : c05case) : list N :=
           flag 6 (match c_handler c with
                   | Ok h => handler_ok s h
                   | Panic _ => false
-                  end)
+                  end) ++
+          (* the hypothesis of the theorems holds of the arenas the implementation builds *)
+          flag 7 (match lo_arena (c_lib c) with Ok a => wf_arenab a | Panic _ => true end &&
+                  forallb (fun u => match model_update tbl (c_lib c) s (fst u) with
+                                    | Ok s' => wf_arenab (gr_arena (gs_graph s'))
+                                    | Panic _ => true
+                                    end) (c_updates c))
       end
   end.
 
